@@ -196,6 +196,7 @@ func globalLoad(v ssa.Value) *ssa.Global {
 
 // fieldLoadAddr decomposes an address &X.f (or a load thereof) into X and f.
 func fieldLoadAddr(v ssa.Value) (ssa.Value, *types.Var, bool) {
+	v = under(v)
 	if fa, ok := v.(*ssa.FieldAddr); ok {
 		return fa.X, fieldOf(fa), true
 	}
